@@ -62,12 +62,14 @@ package templ
 
 // ---------------------------------------------------------------------------
 // C13: the children slot.
-//@ func WithChildren [C13]
+// (C12: both work on the one context value of the render - neither may install another one, which would split the
+// registry of emitted items; the obligation sits at context.WithValue.)
+//@ func WithChildren [C13, C12]
 //@   modifies cv().children
-//@   ensures slot() == children
-//@ func ClearChildren [C13]
+//@   ensures {C13} slot() == children
+//@ func ClearChildren [C13, C12]
 //@   modifies cv().children
-//@   ensures slot() == nil
+//@   ensures {C13} slot() == nil
 //@ func GetChildren [C13]
 //@   ensures implies(slot() != nil, result == slot())
 //@   ensures implies(slot() == nil, result == NopComponent || result == nil)
